@@ -44,6 +44,10 @@ def run(chk):
                                        batches=1 if not thorough else 8)
     for k, v in h.items():
       hits[k] = hits.get(k, 0) + v
+  h = symtree_check.replay_transitions(chk, 'C08_states.cfg', 'C08_step.cfg', CLAUSES, in_scope=in_scope,
+                                       max_states=12 if not thorough else 600, seed=chk.seed)
+  for kk, v in h.items():
+    hits[kk] = hits.get(kk, 0) + v
   chk.notes['action_outcome_hits'] = dict(sorted(hits.items()))
   for need in NEED:
     chk.require(hits.get(need, 0) > 0, f'vacuous: no replayed step {need}')
